@@ -15,7 +15,7 @@ from . import tlc
 from .tlc import MachineryError, VERIF
 
 REPO = os.environ.get("VERIF_REPO", "/repo")
-EVIDENCE_DIR = os.path.join(VERIF, "evidence")
+EVIDENCE_DIR = os.environ.get("VERIF_EVIDENCE_DIR") or os.path.join(VERIF, "evidence")      # bin/seeded redirects it: evidence/ describes the unchanged tree
 REPLAY_DIR = os.path.join(VERIF, "replays")
 FINDINGS_FILE = os.path.join(VERIF, "known_findings.json")
 NCPU = min(16, os.cpu_count() or 1)
@@ -147,7 +147,17 @@ class Ctx:
                 raise MachineryError("duplicate case id %s" % c["id"])
             byid[c["id"]] = c
 
-        def one(batch):
+        class _Unevaluable(object):
+            """stands for the TLC result of a single case the specification could not even evaluate"""
+            def __init__(self, case, why):
+                nev = len(case["events"])
+                self.records = [{"k": "MISMATCH", "case": case["id"], "ev": 0, "op": "trace", "clause": "trace_can_be_evaluated_by_the_specification",
+                                 "cls": family, "detail": why},
+                                {"k": "DONE", "cases": 1, "events": nev, "judged": nev, "skipped": 0}]
+                self.generated = self.distinct = 0
+                self.out = why
+
+        def run_batch(batch):
             fd, path = tempfile.mkstemp(prefix="vf-trace-", suffix=".json")
             with os.fdopen(fd, "w") as f:
                 json.dump(batch, f)
@@ -159,13 +169,31 @@ class Ctx:
                 tlc.must_be_clean(r, module + " (trace validation)")
                 if r.violated:
                     raise MachineryError("trace spec %s violated %s" % (module, r.violated))
-                return batch, r
+                return r
             finally:
                 os.unlink(path)
 
+        def one(batch):
+            """A batch TLC cannot evaluate (an observed value outside the domain of a specification operator) is split; a single
+            case that still cannot be evaluated is REJECTED (it is not a behaviour of the specification), not a machinery failure -
+            unless nothing at all can be evaluated, which points at the specification itself."""
+            try:
+                return [(batch, run_batch(batch))]
+            except MachineryError as ex:
+                msg = str(ex)
+                if "Parsing or semantic analysis failed" in msg or "timed out" in msg or len(batch) == 1 and getattr(one, "_depth", 0) == 0 and len(cases) == 1:
+                    raise
+                if len(batch) == 1:
+                    why = next((l for l in msg.splitlines() if l.startswith("Error:") or "Attempted" in l or "exception" in l), msg[:200])
+                    return [(batch, _Unevaluable(batch[0], why[:300]))]
+                mid = len(batch) // 2
+                return one(batch[:mid]) + one(batch[mid:])
+
         found = []
         with ThreadPoolExecutor(max_workers=NCPU) as ex:
-            results = list(ex.map(one, batches))
+            results = [x for part in ex.map(one, batches) for x in part]
+        if results and all(isinstance(r, _Unevaluable) for _, r in results) and len(results) > 3:
+            raise MachineryError("trace spec %s could not evaluate ANY case of family %s: %s" % (module, family, results[0][1].out))
         for batch, r in results:
             done = [x for x in r.records if x.get("k") == "DONE"]
             nev = sum(len(c["events"]) for c in batch)
